@@ -262,6 +262,10 @@ func (f *Family) auxFor(pos int) *auxCerts {
 	a.delegateKey = pki.K("p256", 7)
 	d := pki.LeafSpec(a.delegateKey, f.Tag+"-ocsp-delegate")
 	d.EKU = []x509.ExtKeyUsage{x509.ExtKeyUsageOCSPSigning}
+	// the delegated responder certificate names a distribution point of its own
+	// (slot 3, which no checked certificate uses, of the position it answers for)
+	// and carries no ocsp-nocheck: whoever goes and asks is seen in the log
+	d.CDP = []string{f.URL(pos, "d", 3, "http")}
 	a.delegate = mk(d, issuer, ik)
 	a.siblingKey = pki.K("p256", 8)
 	a.sibling = mk(pki.LeafSpec(a.siblingKey, f.Tag+"-sibling"), issuer, ik)
